@@ -128,6 +128,19 @@ def opPrefixes (args : List String) : String :=
   | [t, l] => ";".intercalate ((NB.prefixSamples ((parseDocs t).headD []) (l == "1")).map fun (x, y) => ",".intercalate x ++ (if y then ":1" else ":0"))
   | _ => "bad-op"
 
+def opTeq (args : List String) : String :=
+  match args with
+  | [a, b] => match Art.dec a, Art.dec b with
+    | some x, some y => if x.pyEq y then "1" else "0"
+    | _, _ => "bad-op"
+  | _ => "bad-op"
+def opTstr (args : List String) : String :=
+  match args with
+  | [a] => match Art.dec a with
+    | some x => x.v.nbStr ++ " ## " ++ x.repr
+    | none => "bad-op"
+  | _ => "bad-op"
+
 def handle (line : String) : String :=
   match (line.trimAscii.toString.splitOn " ").filter (· ≠ "") with
   | "rx" :: args => opRx args
@@ -139,6 +152,8 @@ def handle (line : String) : String :=
   | "stack" :: args => opStack args
   | "parse" :: args => opParse args
   | "nomatch" :: args => opNoMatch args
+  | "teq" :: args => opTeq args
+  | "tstr" :: args => opTstr args
   | "nbfit" :: args => opNbFit args
   | "nbscore" :: args => opNbScore args
   | "prefixes" :: args => opPrefixes args
